@@ -7,6 +7,7 @@ import SqlProofs.LeadingKeyword
 import SqlModel
 import SqlProofs.SplitValue
 import SqlProofs.Resplit
+import SqlProofs.WsRespell.Def
 import SqlModel.LexCost
 open Sql
 
@@ -71,6 +72,16 @@ def cmdLexStable (both : Bool) (s : Array Nat) : String :=
     let d (b : Bool) : String := if b then "1" else "0"
     "ok" ++ String.join (sts.map fun st =>
       if both then " " ++ d (lexStableB st) ++ d (lexStableCB st) else " " ++ d (lexStableB st || lexStableCB st))
+
+/-- `wsrespell <hex text>`: the decidable hypothesis `wsRespellable` of the lexical step of C11 (SqlProofs/WsRespell) on the token list of
+the text.  Answer: `ok <0|1> <one digit per token>` (first digit: the whole list is white-space respellable; then the verdict of every
+token, in order), or `err <PyErr>` if lexing fails. -/
+def cmdWsRespell (s : Array Nat) : String :=
+  match lex defaultCfg s with
+  | .error e => "err " ++ e.name
+  | .ok ts =>
+    let d (b : Bool) : String := if b then "1" else "0"
+    "ok " ++ d (wsRespellable ts) ++ " " ++ String.join ((wsCertBits (defaultCfg.env (tokensText ts).toArray) false 0 ts).map d)
 
 /-- `lexwork <hex text>`: the cost model of the whole scan loop (SqlModel/LexCost.lean, bounded by `C16.lex_work_poly`).
 Answer: `ok <lexWork> <text length> <number of tokens>` (three decimal numbers), or `err <PyErr>` if lexing fails. -/
@@ -189,6 +200,21 @@ def cmdDelimSafe (s : Array Nat) : String :=
       s!"{if safe then 1 else 0}:{shape}")
 -- <<< delimsafe command -----------------------------------------------------------------------
 
+-- >>> reindentsafe command --------------------------------------------------------------------
+/-- `reindentsafe <hex text>`: for every statement of lexer ∘ splitter `<ReindentSafe>:<FilterSafe.reindent of the model's
+grouped tree, or e on error>` (0/1 each) -/
+def cmdReindentSafe (s : Array Nat) : String :=
+  match lexSplit s with
+  | .error e => "err " ++ e.name
+  | .ok sts =>
+    "ok " ++ " ".intercalate (sts.map fun st =>
+      let safe := Sql.ReindentSafe st
+      let dom := match Sql.groupStatement 200 st with
+        | .ok tree => if Sql.FilterSafe.reindent false (Sql.FNode.ofNode tree) then "1" else "0"
+        | .error _ => "e"
+      s!"{if safe then 1 else 0}:{dom}")
+-- <<< reindentsafe command --------------------------------------------------------------------
+
 /-- `skelcheck`: evaluate the C12 skeleton table (19 contexts × 30 reference forms) with the compiled model:
 `ok <number of skeletons whose check is true> <number of skeletons> <hex texts of failing skeletons …>` -/
 def cmdSkelCheck : String :=
@@ -283,6 +309,7 @@ def handle (line : String) : String :=
   | "lexstable" :: rest => cmdLexStable false (parseText rest)
   | "lexstable2" :: rest => cmdLexStable true (parseText rest)
   | "lexwork" :: rest => cmdLexWork (parseText rest)
+  | "wsrespell" :: rest => cmdWsRespell (parseText rest)
   | "csl" :: rest => cmdCsl rest
   | "quiet" :: rest => cmdQuiet (parseText rest)
   | "views" :: rest => cmdViews (parseText rest)
@@ -300,6 +327,7 @@ def handle (line : String) : String :=
   | "skeltexts2" :: _ => cmdSkelTexts2
   | "leadhyp" :: rest => cmdLeadHyp (parseText rest)
   | "delimsafe" :: rest => cmdDelimSafe (parseText rest)
+  | "reindentsafe" :: rest => cmdReindentSafe (parseText rest)
   | "skel" :: rest => cmdWsSkel rest
   | "wsdomain" :: rest => cmdWsDomain rest
   | "acc" :: rest => Sql.Driver.cmdAcc rest   -- accessors (SqlModel/AccDriver.lean), stream S-ACC
